@@ -261,22 +261,36 @@ fn window_obs_of(win: SourceText<&str>, p: Pos, sub: Span) -> String {
     .join("|")
 }
 
-pub fn window_obs(text: &str, m: ColumnMetrics, w: Span, p: Pos, sub: Span) -> String {
+/// `outer`: the window is cut out of an intermediate source that itself does not start at the
+/// origin: `('c', o)` = the window `parent.clipped(o)`, `('s', o)` = a source built over the bytes of
+/// `o` with `with_start_position(o.start())`.
+pub fn window_obs(text: &str, m: ColumnMetrics, w: Span, p: Pos, sub: Span, outer: Option<(char, Span)>) -> String {
     let parent = SourceText::new(text).with_column_metrics(m).with_name("src");
-    let win = match std::panic::catch_unwind(|| parent.clipped(w)) {
-        Ok(win) => win,
-        Err(_) => return "panic".to_string(),
-    };
-    let a = window_obs_of(win, p, sub);
-    // owned round trip: every result must be the same
-    let owned = win.to_owned();
-    let back = owned.borrow();
-    let b = window_obs_of(back, p, sub);
-    let same = a == b
-        && back.name() == win.name()
-        && back.column_metrics() == win.column_metrics()
-        && back.start_position() == win.start_position();
-    format!("{}|{}", a, wire::b(same))
+    let r = std::panic::catch_unwind(|| {
+        let mid;
+        let win = match outer {
+            None => parent.clipped(w),
+            Some(('c', o)) => { mid = parent.clipped(o); mid.clipped(w) }
+            Some((_, o)) => {
+                mid = SourceText::new(&text[o.start().byte..o.end().byte])
+                    .with_column_metrics(m)
+                    .with_name("src")
+                    .with_start_position(o.start());
+                mid.clipped(w)
+            }
+        };
+        let a = window_obs_of(win, p, sub);
+        // owned round trip: every result must be the same
+        let owned = win.to_owned();
+        let back = owned.borrow();
+        let b = window_obs_of(back, p, sub);
+        let same = a == b
+            && back.name() == win.name()
+            && back.column_metrics() == win.column_metrics()
+            && back.start_position() == win.start_position();
+        format!("{}|{}", a, wire::b(same))
+    });
+    r.unwrap_or_else(|_| "panic".to_string())
 }
 
 pub fn window(out: &mut Out, tier: &Tier, rng: &mut Rng) {
@@ -303,8 +317,27 @@ pub fn window(out: &mut Out, tier: &Tier, rng: &mut Rng) {
                             wire::pos(p),
                             wire::span(sub),
                         ],
-                        || window_obs(text, m, w, p, sub),
+                        || window_obs(text, m, w, p, sub, None),
                     );
+                    // a third of the cases again, with the window cut out of an enclosing window (or out
+                    // of a source that starts at a non-zero position)
+                    if rng.chance(1, 3) {
+                        let o = Span::enclosing(ps[rng.below(i + 1)], ps[j + rng.below(ps.len() - j)]);
+                        let route = if rng.chance(1, 2) { 'c' } else { 's' };
+                        out.case(
+                            "window",
+                            &[
+                                wire::text(text),
+                                le_name(le).to_string(),
+                                tab.to_string(),
+                                wire::span(w),
+                                wire::pos(p),
+                                wire::span(sub),
+                                format!("{}{}", route, wire::span(o)),
+                            ],
+                            || window_obs(text, m, w, p, sub, Some((route, o))),
+                        );
+                    }
                 }
             }
         }
@@ -342,7 +375,10 @@ pub fn replay(family: &str, f: &[&str]) -> Option<String> {
         }
         "window" => {
             let m = metrics(parse_le(f[1]), f[2].parse().ok()?);
-            Some(window_obs(&parse_text(f[0]), m, parse_span(f[3]), parse_pos(f[4]), parse_span(f[5])))
+            let outer = if f.len() > 6 && (f[6].starts_with('c') || f[6].starts_with('s')) {
+                Some((f[6].chars().next()?, parse_span(&f[6][1..])))
+            } else { None };
+            Some(window_obs(&parse_text(f[0]), m, parse_span(f[3]), parse_pos(f[4]), parse_span(f[5]), outer))
         }
         _ => None,
     }
